@@ -23,6 +23,98 @@ pub fn slg_stale_table(s: &mut chalk_engine::solve::SLGSolver<I>) -> bool {
     s.verif_tables().iter().any(|t| t.answers_with_delayed_subgoals > 0 && t.strands == 0)
 }
 
+/// F12's root-cause condition, observed through hook H5: some table holds the complete trivial answer that makes the
+/// engine discard the table's remaining strands *next to* answers that happened to arrive before it. With another strand
+/// order those earlier answers would have been cut, so consumers of the table see a different answer set.
+pub fn slg_subsumed_answers(s: &mut chalk_engine::solve::SLGSolver<I>) -> bool {
+    s.verif_tables_with_subsumed_answers(chalk_integration::interner::ChalkIr) > 0
+}
+
+/// `Ambiguous; definite substitution` (as displayed) whose substitution repeats one of its own variables (F20's
+/// precondition). Works on the displayed form because the two answers being compared may come from two differently
+/// ordered copies of a program, whose item ids differ.
+pub fn nonlinear_definite(shown: &str) -> bool {
+    if !shown.starts_with("Ambiguous; definite substitution") {
+        return false;
+    }
+    let mut seen = std::collections::BTreeSet::new();
+    let b = shown.as_bytes();
+    let mut i = 0;
+    while i + 1 < b.len() {
+        if b[i] == b'^' {
+            let mut j = i + 1;
+            while j < b.len() && (b[j].is_ascii_digit() || b[j] == b'.') {
+                j += 1;
+            }
+            if !seen.insert(shown[i..j].to_string()) {
+                return true;
+            }
+            i = j;
+        } else {
+            i += 1;
+        }
+    }
+    false
+}
+
+/// (binders, substitution) of a displayed `Unique` answer without lifetime constraints.
+fn unique_parts(s: &str) -> Option<(String, String)> {
+    let rest = s.strip_prefix("Unique; ")?;
+    if rest.contains("lifetime constraints") {
+        return None;
+    }
+    if let Some(r) = rest.strip_prefix("for<") {
+        let k = r.find("> { substitution ")?;
+        let sub = r[k + "> { substitution ".len()..].strip_suffix(" }")?;
+        Some((r[..k].to_string(), sub.to_string()))
+    } else {
+        Some((String::new(), rest.strip_prefix("substitution ")?.to_string()))
+    }
+}
+
+/// (binders, substitution) of a displayed `Ambiguous; definite substitution` answer.
+fn definite_parts(s: &str) -> Option<(String, String)> {
+    let rest = s.strip_prefix("Ambiguous; definite substitution ")?;
+    if let Some(r) = rest.strip_prefix("for<") {
+        let k = r.find("> { ")?;
+        let sub = r[k + "> { ".len()..].strip_suffix(" }")?;
+        Some((r[..k].to_string(), sub.to_string()))
+    } else {
+        Some((String::new(), rest.to_string()))
+    }
+}
+
+/// Known root causes that make two SLG answers to the *same goal on the same program* differ with strand order
+/// (declaration order, earlier goals, an interrupted or crashed earlier solve). Arguments: the displayed answers and,
+/// for each, hook H5 evidence taken from the solver that produced it.
+pub fn slg_order_signature(a: &str, a_subsumed: bool, b: &str, b_subsumed: bool) -> Option<&'static str> {
+    // F12: the Ambiguous side counted answers that a trivial answer of some table subsumes. All of those extra answers
+    // are instances of the Unique side's substitution S, so their anti-unification is S itself: the pair is exactly
+    // {Unique S, Ambiguous with definite guidance S}. (For a trivial S the guidance degenerates to "no guidance"; that
+    // case is recognised by the monitors' older answer-pattern rule.)
+    let same_subst = |u: &str, d: &str| match (unique_parts(u), definite_parts(d)) {
+        (Some(x), Some(y)) => x == y,
+        _ => false,
+    };
+    if (same_subst(a, b) && b_subsumed) || (same_subst(b, a) && a_subsumed) {
+        return Some("slg:trivial-answer-green-cut-order");
+    }
+    if nonlinear_definite(a) || nonlinear_definite(b) {
+        // F20: guidance with a repeated variable is declared final before an invalidating answer is seen
+        return Some("slg:may-invalidate-nonlinear-guidance");
+    }
+    None
+}
+
+/// Hook H5 evidence for a fresh SLG solve of `goal` (used when a monitor only kept the fresh answer).
+pub fn fresh_slg_subsumed(l: &Loaded, goal: &UGoal) -> bool {
+    let db = FaultDb::new(&*l.program, "slg");
+    db.budget.set(300_000);
+    let mut s = chalk_engine::solve::SLGSolver::<I>::new(10, None);
+    let _ = solve(&mut s, &db, goal);
+    slg_subsumed_answers(&mut s)
+}
+
 /// Fresh solver + fresh FaultDb, one `solve`, answer translated to the model's vocabulary.
 pub fn solve_translated(l: &Loaded, choice: SolverChoice, peeled: &Peeled, budget: u64) -> SolveRec {
     let db = FaultDb::new(&*l.program, solver_name(&choice));
